@@ -331,7 +331,7 @@ def post_affine_from_axis(args, kw, res, exc, snap):
     sy = max(np.abs(yy).max(), abs(res.e) * yy.size)
     ok = res.b == 0 and res.d == 0 and np.abs(gx - xx).max() <= 1e-9 * sx and np.abs(gy - yy).max() <= 1e-9 * sy
     _mon.check(bool(ok), "affine_from_axis", lambda: {"xx": xx, "yy": yy, "A": _aff6(res)}, key="affine_from_axis-contract",
-               cls="single" if min(xx.size, yy.size) < 2 else "multi", sig=hsig("afa", xx.tobytes(), yy.tobytes()),
+               cls=("single" if min(xx.size, yy.size) < 2 else "multi") + ("|fallback-given" if fb is not None else ""), sig=hsig("afa", xx.tobytes(), yy.tobytes(), repr(fb)),
                sample={"xx": xx[:3].tolist(), "yy": yy[:3].tolist(), "A": _aff6(res)})
 
 
@@ -576,6 +576,11 @@ def drive_axis_bins(mon: Monitor, rng: random.Random, n: int) -> None:
             from odc.geo import resxy_
 
             fb = resxy_(rx, ry) if rng.random() < 0.8 else None
+        if rng.random() < 0.4:
+            # a fallback that disagrees with the labels (stale metadata, other sign, non-square pixels): only axes with a single label may use it
+            from odc.geo import res_, resxy_
+
+            fb = rng.choice([resxy_(rx * 2, ry), resxy_(rx, -ry), resxy_(-rx, ry * 3), res_(abs(rx)), resxy_(ry, rx)])
         try:
             M.affine_from_axis(xx, yy, fb)
         except ValueError:
@@ -723,7 +728,7 @@ def run(mon: Monitor, tier: str, seed: int, shard: int, nshards: int) -> None:
         drive_indirect(mon, rng, N["ind"])
         for pt, n in [("split_float", 1000), ("maybe_int", 1000), ("is_almost_int", 1000), ("snap_scale", 1000), ("align_down", 1000),
                       ("align_up", 1000), ("align_up_pow2", 100), ("align_down_pow2", 100), ("snap_grid", 1000), ("snap_affine", 500),
-                      ("decompose_rws", 500), ("affine_from_pts", 500), ("affine_from_axis", 500), ("Bin1D.bin", 1000),
+                      ("decompose_rws", 500), ("affine_from_pts", 500), ("affine_from_axis", 500), ("affine_from_axis|multi|fallback-given", 50), ("affine_from_axis|single|fallback-given", 50), ("Bin1D.bin", 1000),
                       ("Bin1D.from_sample_bin", 500), ("Poly2d.fit", 100), ("Poly2d.with_input_transform", 100), ("Poly2d.heldout", 100),
                       ("snap_grid|edge+", 50), ("snap_grid|edge-", 50), ("snap_grid|centre+", 50), ("snap_grid|centre-", 50),
                       ("snap_grid|float+", 50), ("snap_grid|float-", 50), ("snap_grid|fraction+", 50),
